@@ -45,15 +45,22 @@ def make_arrays(cfg):
     return pas
 
 
+def LL(cfg):
+    """Box lengths per axis (cfg['Ls'] for boxes that are not cubes)."""
+    if cfg.get('Ls'):
+        return tuple(cfg['Ls'])
+    return (cfg['L'],) * 3
+
+
 def make_domain(cfg):
     from pysph.base.nnps import DomainManager
-    L = cfg['L']
+    L = LL(cfg)
     dim = cfg['dim']
-    kw = dict(xmin=0.0, xmax=L, n_layers=cfg['n_layers'])
+    kw = dict(xmin=0.0, xmax=L[0], n_layers=cfg['n_layers'])
     if dim > 1:
-        kw.update(ymin=0.0, ymax=L)
+        kw.update(ymin=0.0, ymax=L[1])
     if dim > 2:
-        kw.update(zmin=0.0, zmax=L)
+        kw.update(zmin=0.0, zmax=L[2])
     for a, ax in enumerate('xyz'[:dim]):
         if cfg['axes'][a] == 'p':
             kw['periodic_in_' + ax] = True
@@ -76,7 +83,7 @@ def expected(cfg, state):
     """state: per array list of dict(uid, pos, h, vel, other) of REAL
     particles before the update.  Returns per array (reals_after, images,
     optional_images) where an image = (uid, pos tuple, vel tuple)."""
-    dim, L, axes = cfg['dim'], cfg['L'], cfg['axes']
+    dim, L, axes = cfg['dim'], LL(cfg), cfg['axes']
     hmax = max([p['h'] for arr in state for p in arr] or [0.0])
     cs = RS * hmax
     if cs < 1e-6:
@@ -91,14 +98,14 @@ def expected(cfg, state):
             pos = list(p['pos'])
             for a in range(dim):
                 if axes[a] == 'p':
-                    pos[a] = wrap(pos[a], L)
+                    pos[a] = wrap(pos[a], L[a])
             reals.append(dict(p, pos=tuple(pos)))
             choices = []
             for a in range(3):
                 ch = [(0, False)]
                 if a < dim and axes[a] in 'pm':
                     dlo = pos[a] - 0.0
-                    dhi = L - pos[a]
+                    dhi = L[a] - pos[a]
                     for d, sgn in ((dlo, +1), (dhi, -1)):
                         if d <= ell + 1e-12:
                             ch.append((sgn, abs(d - ell) <= 1e-12))
@@ -112,9 +119,9 @@ def expected(cfg, state):
                     if sgn == 0:
                         continue
                     if axes[a] == 'p':
-                        ip[a] = pos[a] + sgn * L
+                        ip[a] = pos[a] + sgn * L[a]
                     else:
-                        face = 0.0 if sgn > 0 else L
+                        face = 0.0 if sgn > 0 else L[a]
                         ip[a] = 2 * face - pos[a]
                         iv[a] = -iv[a]
                 img = (p['uid'], tuple(ip), tuple(iv))
@@ -178,7 +185,7 @@ def compare(cfg, before, pas, round_no):
         for p in act_real:
             for ax in range(cfg['dim']):
                 if cfg['axes'][ax] == 'p' and not (
-                        -1e-12 <= p['pos'][ax] <= cfg['L'] + 1e-12):
+                        -1e-12 <= p['pos'][ax] <= LL(cfg)[ax] + 1e-12):
                     probs.append(('real-outside-box', dict(array=a,
                                                            pos=p['pos'])))
         # ghosts: exactly the expected images (optional ones either way)
@@ -251,8 +258,8 @@ def run_history(cfg):
             if cfg.get('adds') and cfg['adds'][r - 1]:
                 # a particle created after the NNPS object, outside the box
                 pa = pas[0]
-                L = cfg['L']
-                pos = [(-0.25 if r % 2 else L + 0.25) if a < cfg['dim']
+                L = LL(cfg)
+                pos = [(-0.25 if r % 2 else L[a] + 0.25) if a < cfg['dim']
                        and cfg['axes'][a] == 'p' else (0.25 if a < cfg['dim']
                                                        else 0.0)
                        for a in range(3)]
@@ -296,7 +303,7 @@ def neighbour_complete(cfg, pas, nn):
     """Every periodic/mirror image of a source particle that is within the
     interaction radius of a real particle must be returned by the NNPS."""
     from cyarray.api import UIntArray
-    dim, L, axes = cfg['dim'], cfg['L'], cfg['axes']
+    dim, L, axes = cfg['dim'], LL(cfg), cfg['axes']
     st = read_state(pas)
     nb = UIntArray()
     for di, darr in enumerate(st):
@@ -319,9 +326,9 @@ def neighbour_complete(cfg, pas, nn):
                             if sa == 0:
                                 continue
                             if axes[a] == 'p':
-                                ip[a] = q['pos'][a] + sa * L
+                                ip[a] = q['pos'][a] + sa * L[a]
                             else:
-                                face = 0.0 if sa > 0 else L
+                                face = 0.0 if sa > 0 else L[a]
                                 ip[a] = 2 * face - q['pos'][a]
                         d = np.sqrt(sum((ip[a] - p['pos'][a]) ** 2
                                         for a in range(3)))
@@ -353,7 +360,7 @@ def configs(thorough, seed):
             if thorough:
                 kmax = {1: 4, 2: 3, 3: 2}[dim]
             if dim == 3 and not thorough:
-                pts1 = [-0.5, 0.0, 0.5, L - 0.25, L]
+                pts1 = [-0.5, 0.0, 0.5, L - 0.25, L, L + 0.25]
             if dim == 2 and not thorough:
                 pts1 = [c for c in pts1 if c not in (1.0, L - 1.0)]
             lat = [tuple(c) + (0.0,) * (3 - dim)
@@ -389,6 +396,19 @@ def configs(thorough, seed):
                                             arr=[i % 2 for i in range(k)]
                                             if k > 1 else [0], narr=2,
                                             moves=[]))
+    # boxes that are not cubes (2 x 1.25 x 1.5): the placements of the wide
+    # cube with every coordinate beyond the middle moved with its face
+    NC = (2.0, 1.25, 1.5)
+    noncube = []
+    wide = [c for c in out if c['L'] == 2.0 and c['dim'] >= 2]
+    for c in wide[(seed % 3)::(1 if thorough else 3)]:
+        c2 = dict(c)
+        c2['Ls'] = NC
+        c2['pts'] = [tuple((v if (v <= 1.0 or a >= c['dim'])
+                            else v + NC[a] - 2.0) for a, v in enumerate(p))
+                     for p in c['pts']]
+        noncube.append(c2)
+    out = out + noncube
     # histories: move by a lattice vector, update (x3)
     hist = []
     for c in out[::7]:
@@ -415,7 +435,7 @@ def configs(thorough, seed):
             extra.append(c2)
         c3 = dict(c)
         c3['h'] = [H0 * (2 if i == 0 else 1) for i in range(len(c['pts']))]
-        if c3['n_layers'] * RS * 2 * H0 < c['L']:
+        if c3['n_layers'] * RS * 2 * H0 < min(LL(c)[:c['dim']]):
             extra.append(c3)
     return out + hist + extra
 
@@ -477,7 +497,7 @@ def run(ctx):
                            'placements (chosen by the seed)' % c
                            for c in sorted(CAPPED)],
                samples=[cfgs[(ctx.seed * 13 + 77) % len(cfgs)]],
-               rule='boxes [0,L]^dim, L in {2, 1.25} (the narrow box puts a '
+               rule='boxes [0,L]^dim, L in {2, 1.25} and 2 x 1.25 x 1.5 (the narrow box puts a '
                     'particle into both ghost layers), every assignment of '
                     '{periodic, mirror, none} to the axes (at least one '
                     'active), n_layers {1,2}, 1..3 particles on a lattice '
